@@ -68,6 +68,44 @@ package mpegts
 //@   modifies
 //@   ensures err != nil
 
+// ---- the stream header: PAT and PMT packets (2.4.4.3, 2.4.4.8) with their CRC-32/MPEG-2 (Annex A) ------------------
+// The header is a constant table; nothing in the package writes it (mechanical scan), so its bytes are facts.
+//@ global mpegtsHeader readonly
+// one bit of CRC-32/MPEG-2: polynomial 0x04c11db7, most significant bit first, no reflection, no final xor
+//@ spec func crcStep(c uint32) uint32 = (c << 1) ^ (0x04c11db7 & (0 - (c >> 31)))
+//@ spec func crc8(c uint32) uint32 = crcStep(crcStep(crcStep(crcStep(crcStep(crcStep(crcStep(crcStep(c))))))))
+//@ spec func crcByte(c uint32, b byte) uint32 = crc8(c ^ uint32(b)<<24)
+//@ spec func crc4(c uint32, h []byte, o int) uint32 = crcByte(crcByte(crcByte(crcByte(c, h[o]), h[o+1]), h[o+2]), h[o+3])
+//@ spec func hbe32(h []byte, o int) uint32 = uint32(h[o])<<24 | uint32(h[o+1])<<16 | uint32(h[o+2])<<8 | uint32(h[o+3])
+//@ spec func hbe16(h []byte, o int) int = int(h[o])<<8 | int(h[o+1])
+//@ spec func pid13(h []byte, o int) int = int(h[o]&0x1f)<<8 | int(h[o+1])
+//@ spec func len12(h []byte, o int) int = int(h[o]&0x0f)<<8 | int(h[o+1])
+// TS packet header of a PSI packet: sync byte, payload_unit_start, no error / priority / scrambling, payload only,
+// continuity counter 0, pointer_field 0
+//@ spec func psiPacket(h []byte, o int, pid int) bool = h[o] == 0x47 && h[o+1]&0xe0 == 0x40 && pid13(h, o+1) == pid && h[o+3] == 0x10 && h[o+4] == 0
+// common PSI section header at o: table id, section_syntax_indicator 1, '0', section_length, program number / ts id,
+// version 0 current_next 1, section 0 of 0
+//@ spec func psiSection(h []byte, o int, tableID byte, n int) bool = h[o] == tableID && h[o+1]&0xc0 == 0x80 && len12(h, o+1) == n && h[o+5]&1 == 1 && h[o+6] == 0 && h[o+7] == 0
+// PAT: one program (number 1) whose PMT travels on the PID of the second packet; CRC over the 12 section bytes before it
+//@ spec func patOK(h []byte) bool = psiPacket(h, 0, 0) && psiSection(h, 5, 0, 13) && hbe16(h, 13) == 1 && pid13(h, 15) == pid13(h, 189) && crc4(crc4(crc4(0xffffffff, h, 5), h, 9), h, 13) == hbe32(h, 17) && forall(i, 21, 188, h[i] == 0xff)
+// PMT: program 1, PCR on the video PID, no program descriptors, H.264 (0x1b) on PID 256 and AAC/ADTS (0x0f) on PID 257,
+// no elementary-stream descriptors; CRC over the 22 section bytes before it
+//@ spec func pmtOK(h []byte) bool = psiPacket(h, 188, pid13(h, 15)) && pid13(h, 15) >= 0x10 && pid13(h, 15) != 256 && pid13(h, 15) != 257 && psiSection(h, 193, 2, 23) && hbe16(h, 196) == 1 && pid13(h, 201) == 256 && len12(h, 203) == 0 && h[205] == 0x1b && pid13(h, 206) == 256 && len12(h, 208) == 0 && h[210] == 0x0f && pid13(h, 211) == 257 && len12(h, 213) == 0 && crcByte(crcByte(crc4(crc4(crc4(crc4(crc4(0xffffffff, h, 193), h, 197), h, 201), h, 205), h, 209), h[213]), h[214]) == hbe32(h, 215) && forall(i, 219, 376, h[i] == 0xff)
+// what a new writer puts on the wire first: exactly the two header packets, whose tables are well formed
+//@ func (w *Writer) writeMpegtsHeader() (err error)
+//@   requires w != nil && w.w != nil
+//@   modifies out(w.w)
+//@   ensures len(mpegtsHeader) == 376 && patOK(mpegtsHeader) && pmtOK(mpegtsHeader)
+//@   ensures err == nil ==> len(out(w.w)) == old(len(out(w.w))) + 376 && forall(i, 0, 376, out(w.w)[old(len(out(w.w))) + i] == mpegtsHeader[i])
+//@   ensures forall(i, 0, old(len(out(w.w))), out(w.w)[i] == old(out(w.w)[i]))
+//@ func NewWriter(w io.Writer) (writer *Writer, err error)
+//@   requires w != nil
+//@   modifies out(w)
+//@   ensures err == nil ==> writer != nil && writer.w == w && writer.videoCC == 0 && writer.audioCC == 0
+//@   ensures err == nil ==> len(out(w)) == old(len(out(w))) + 376 && forall(i, 0, 376, out(w)[old(len(out(w))) + i] == mpegtsHeader[i])
+//@   ensures err != nil ==> writer == nil
+//@   ensures forall(i, 0, old(len(out(w))), out(w)[i] == old(out(w)[i]))
+
 // ---- WriteMpegtsFrame: every 188-byte packet handed to the underlying writer ----------------------
 // payload start of a TS packet: 4, or 5 + adaptation_field_length when the adaptation flag is set
 //@ spec func payloadStart(pkt *[188]byte) int = iteInt(pkt[3]&0x20 != 0, 5 + int(pkt[4]), 4)
@@ -117,19 +155,43 @@ package mpegts
 // ns*90000 (the reduced fraction's unreduced form) wraps after about 28.5 hours
 //@ spec func to90k(ns int64) int64 = ns * 9 / 100000
 //@ spec func timeOK(ns int64) bool = 0 <= ns && ns < 1<<59
+// Annex-B prefix of a video access unit (what precedes the NAL unit in the PES payload): an access-unit delimiter
+// 00 00 00 01 09 f0 before slices and SEI (types 1, 5, 6); before an IDR slice additionally the stream's SPS and PPS,
+// each behind a 4-byte start code; then the start code of the unit itself - 4 bytes when nothing precedes it, 3 bytes
+// otherwise (none for types 7..9, which are not sent as samples)
+//@ spec func nalT(frame *Frame) byte = frame.Payload[0] & 0x1f
+//@ spec func audLen(frame *Frame) int = iteInt(nalT(frame) == 1 || nalT(frame) == 5 || nalT(frame) == 6, 6, 0)
+//@ spec func psLen(frame *Frame, ps []byte) int = iteInt(nalT(frame) == 5 && len(ps) > 0, 4 + len(ps), 0)
+//@ spec func scLen(frame *Frame, before int) int = iteInt(nalT(frame) >= 7 && nalT(frame) <= 9, 0, iteInt(before == 0, 4, 3))
+//@ spec func startCode4(h []byte, o int) bool = h[o] == 0 && h[o+1] == 0 && h[o+2] == 0 && h[o+3] == 1
 //@ func (frame *Frame) prepareAvcHeader(sps []byte, pps []byte) ()
-//@   trusted
-//@   requires frame != nil && len(frame.Payload) >= 1
+//@   requires frame != nil && len(frame.Payload) >= 1 && cap(frame.Header) == 0 && len(sps) < 1<<20 && len(pps) < 1<<20
 //@   modifies frame.Header
+//@   split frame.Payload[0]&0x1f == 5, frame.Payload[0]&0x1f == 1 || frame.Payload[0]&0x1f == 6, len(sps) > 0, len(pps) > 0
+//@   ensures len(frame.Header) == audLen(frame) + psLen(frame, sps) + psLen(frame, pps) + scLen(frame, audLen(frame) + psLen(frame, sps) + psLen(frame, pps))
+//@   ensures audLen(frame) == 6 ==> startCode4(frame.Header, 0) && frame.Header[4] == 0x09 && frame.Header[5] == 0xf0
+//@   ensures psLen(frame, sps) > 0 ==> startCode4(frame.Header, audLen(frame)) && forall(i, 0, len(sps), frame.Header[audLen(frame) + 4 + i] == sps[i])
+//@   ensures psLen(frame, pps) > 0 ==> startCode4(frame.Header, audLen(frame) + psLen(frame, sps)) && forall(i, 0, len(pps), frame.Header[audLen(frame) + psLen(frame, sps) + 4 + i] == pps[i])
+//@   ensures scLen(frame, audLen(frame) + psLen(frame, sps) + psLen(frame, pps)) == 4 ==> startCode4(frame.Header, 0)
+//@   ensures scLen(frame, audLen(frame) + psLen(frame, sps) + psLen(frame, pps)) == 3 ==> frame.Header[len(frame.Header)-3] == 0 && frame.Header[len(frame.Header)-2] == 0 && frame.Header[len(frame.Header)-1] == 1
 // video: PID 256, stream id 0xe0, key flag exactly for an IDR slice, DTS/PTS = the frame's times in 90 kHz ticks,
 // the payload is the source NAL unit itself (same bytes, not a copy)
 //@ func (h264p *h264Packetizer) Packetize(frame *codec.Frame) (err error)
 //@   requires h264p != nil && h264p.meta != nil && h264p.tsframeWriter != nil && frame != nil && len(frame.Payload) >= 1 && timeOK(frame.Dts) && timeOK(frame.Pts)
+//@   requires len(h264p.meta.Sps) < 1<<20 && len(h264p.meta.Pps) < 1<<20
 //@   modifies ghostSeq(h264p.tsframeWriter, "frames")
 //@   local tsframe *Frame
 //@   assert[call:WriteMpegtsFrame] tsframe != nil && tsframe.Pid == 256 && tsframe.StreamID == 0xe0 && tsframe.key == (frame.Payload[0]&0x1f == 5) && sameSlice(tsframe.Payload, frame.Payload)
 //@   assert[call:WriteMpegtsFrame] tsframe.Dts == to90k(frame.Dts) && tsframe.Pts == to90k(frame.Pts)
-//@   ensures len(ghostSeq(h264p.tsframeWriter, "frames")) == old(len(ghostSeq(h264p.tsframeWriter, "frames"))) + 1
+// what precedes the unit in the PES payload: AUD before slices / SEI, the stream's CURRENT SPS and PPS before an IDR slice,
+// then the unit's start code
+//@   assert[call:WriteMpegtsFrame] len(tsframe.Header) == audLen(tsframe) + psLen(tsframe, h264p.meta.Sps) + psLen(tsframe, h264p.meta.Pps) + scLen(tsframe, audLen(tsframe) + psLen(tsframe, h264p.meta.Sps) + psLen(tsframe, h264p.meta.Pps))
+//@   assert[call:WriteMpegtsFrame] audLen(tsframe) == 6 ==> startCode4(tsframe.Header, 0) && tsframe.Header[4] == 0x09 && tsframe.Header[5] == 0xf0
+//@   assert[call:WriteMpegtsFrame] psLen(tsframe, h264p.meta.Sps) > 0 ==> startCode4(tsframe.Header, audLen(tsframe)) && forall(i, 0, len(h264p.meta.Sps), tsframe.Header[audLen(tsframe) + 4 + i] == h264p.meta.Sps[i])
+//@   assert[call:WriteMpegtsFrame] psLen(tsframe, h264p.meta.Pps) > 0 ==> startCode4(tsframe.Header, audLen(tsframe) + psLen(tsframe, h264p.meta.Sps)) && forall(i, 0, len(h264p.meta.Pps), tsframe.Header[audLen(tsframe) + psLen(tsframe, h264p.meta.Sps) + 4 + i] == h264p.meta.Pps[i])
+//@   assert[call:WriteMpegtsFrame] len(tsframe.Header) >= 3 && tsframe.Header[len(tsframe.Header)-3] == 0 && tsframe.Header[len(tsframe.Header)-2] == 0 && tsframe.Header[len(tsframe.Header)-1] == 1
+// parameter sets and delimiters arriving in band (types 7..9) are not sent as samples of their own
+//@   ensures len(ghostSeq(h264p.tsframeWriter, "frames")) == old(len(ghostSeq(h264p.tsframeWriter, "frames"))) + iteInt(frame.Payload[0]&0x1f >= 7 && frame.Payload[0]&0x1f <= 9, 0, 1)
 // audio: PID 257, stream id 0xc0, DTS = PTS = the presentation time in 90 kHz ticks, ADTS header for exactly this
 // payload length; a packetiser whose AudioSpecificConfig could not be decoded must not take the converter down
 //@ extern func (asc *aac.AudioSpecificConfig) ToAdtsHeader(payloadSize int) (h aac.ADTSHeader)
